@@ -24,6 +24,10 @@ type cfg14 struct {
 	// (an update that raced the Remove from another goroutine may legitimately
 	// be announced after the target delete and survive in the subscriber)
 	missingOnly bool
+	// probe: once everything is quiet, ONE more update for t1 is issued
+	// sequentially: a removed target refuses it and nothing is announced, a
+	// re-added target stores it where queries and subscribers find it
+	probe bool
 }
 
 func configs14(tier string) []xplore.Config {
@@ -52,6 +56,13 @@ func configs14(tier string) []xplore.Config {
 	// the re-added target ends up holding the leaf, the whole-target delete of
 	// the old incarnation must have been announced before that update
 	out = append(out, xplore.Config{Name: "X=t1 W(t1)=remove || W'(t1)=add;upd a/b W(t2)=upd a/b (no leaf of the re-added target may be missing)", Bound: bound, Data: cfg14{w1: []wop{{"remove", ""}}, w2: []wop{{"upd", "a/b"}}, w1b: []wop{{"add", ""}, {"upd", "a/b"}}, missingOnly: true}})
+	// an update for t1 still in flight (inside the change feed) while another
+	// goroutine removes (and re-adds) t1, then - everything quiet - one more
+	// update for t1: whatever the in-flight update left behind anywhere (a
+	// remembered target, a cached handle), the cache and its subscribers agree
+	for _, w1b := range [][]wop{{{"remove", ""}}, {{"remove", ""}, {"add", ""}}} {
+		out = append(out, xplore.Config{Name: fmt.Sprintf("X=t1 W(t1)=upd a/b || W'(t1)=%s W(t2)=upd a/b, then a sequential update of t1", scriptName(w1b)), Bound: bound, Data: cfg14{w1: []wop{{"upd", "a/b"}}, w2: []wop{{"upd", "a/b"}}, w1b: w1b, missingOnly: true, probe: true}})
+	}
 	// a subscriber attaching at any point of a Reset (before, between the
 	// per-root steps, after): the deletes announced to the feed must cover
 	// whatever its walk showed it. Subscriptions on a/... only, so that the
@@ -80,6 +91,16 @@ func configs03(tier string) []xplore.Config {
 		out = append(out, xplore.Config{Name: fmt.Sprintf("feed: W(t1)=reset || W'(t1)=%s W(t2)=upd a/b", scriptName(w1b)), Bound: bound - 1, Data: cfg14{w1: []wop{{"reset", ""}}, w2: []wop{{"upd", "a/b"}}, w1b: w1b}})
 	}
 	return out
+}
+
+func firstPath(n *pb.Notification) *pb.Path {
+	if len(n.Update) > 0 {
+		return n.Update[0].Path
+	}
+	if len(n.Delete) > 0 {
+		return n.Delete[0]
+	}
+	return nil
 }
 
 func run14(cfg xplore.Config, ch vrt.Chooser, trace bool) (xplore.Outcome, *vrt.Result) {
@@ -155,6 +176,28 @@ func run14x(cfg xplore.Config, ch vrt.Chooser, trace bool) (xplore.Outcome, *vrt
 					}
 				} else if renderMap(rep) != renderMap(want) {
 					viol(&out, "lifecycle-race-not-converged", "Reset racing %s on the same target: replaying the all-targets subscriber's responses yields\n  %s\nthe cache holds\n  %s\nlog: %s", scriptName(d.w1b), renderMap(rep), renderMap(want), renderLog(all.log))
+				}
+			}
+			if d.probe && !all.returned {
+				before := len(all.log)
+				w.ts += 10
+				w.val++
+				pv := w.val
+				perr := w.c.GnmiUpdate(&pb.Notification{Timestamp: w.ts, Prefix: &pb.Path{Target: "t1"}, Update: []*pb.Update{{Path: mkPath("a/z"), Val: ival(pv)}}})
+				settle()
+				announced := ""
+				for _, r := range all.log[before:] {
+					if n := r.GetUpdate(); n != nil && n.GetPrefix().GetTarget() == "t1" && !isMetaKey("t1|"+strings.Join(fullIndex(n.Prefix, firstPath(n)), "/")) {
+						announced += renderLog([]*pb.SubscribeResponse{r})
+					}
+				}
+				stored := w.expected(subSpec{target: "*", paths: []string{"a/z"}})["t1|a/z"]
+				if !w.c.HasTarget("t1") {
+					if perr == nil || announced != "" || stored != "" {
+						viol(&out, "update-for-removed-target", "t1 was removed (HasTarget=false); a later update for it returned %v, was announced as %q and is stored as %q - a removed target is unknown to updates", perr, announced, stored)
+					}
+				} else if perr != nil || stored != fmt.Sprint(pv) || !strings.Contains(announced, fmt.Sprintf("a/z=%d", pv)) {
+					viol(&out, "update-for-readded-target", "t1 was removed and added again; a later update a/z=%d returned %v, queries find %q, the all-targets subscriber was sent %q", pv, perr, stored, announced)
 				}
 			}
 			for _, st := range w.streams {
